@@ -584,3 +584,92 @@ Definition C13d_round (evs : list ev) (res : sync_result) : option string :=
       | _, _ => None
       end
   end.
+
+(* ================= C01 on the decorator: convergence, no hot loop ================= *)
+Definition round_obs := (dcache * list ev * sync_result)%type.
+
+Definition quiet_round (r : round_obs) : bool :=
+  match r with (_, evs, res) =>
+    match res with SDone => true | _ => false end &&
+    negb (existsb (fun e => match is_api e with Some q => is_write q | None => false end) evs)
+  end.
+
+(* objects of the store *)
+Definition same_object (a b : json) : bool :=
+  String.eqb (get_api_version a) (get_api_version b) && String.eqb (get_kind a) (get_kind b) &&
+  String.eqb (get_ns a) (get_ns b) && String.eqb (get_name a) (get_name b).
+
+Definition ours_d (c : dcfg) (t : json) (o : json) : bool :=
+  controlled_by o (get_uid t) && has_marker c o.
+
+Definition attachment_method (c : dcfg) (o : json) : string :=
+  method_of (ccfg_of c) (group_of (get_api_version o)) (get_kind o).
+
+(* desired object d is there as object o: same identity; where the strategy lets the controller bring the
+   content along (every method but OnDelete) applying d to o changes nothing any more *)
+(* the namespace a desired attachment lands in: its own, else the target's (for namespaced kinds) *)
+Definition desired_key_matches (c : dcfg) (o d : json) : bool :=
+  String.eqb (get_api_version o) (get_api_version d) && String.eqb (get_kind o) (get_kind d) &&
+  String.eqb (get_name o) (get_name d) &&
+  match lookup_kind (ccfg_of c) (get_api_version d) (get_kind d) with
+  | Some kc => String.eqb (eff_ns (ch_namespaced kc) (get_ns d)) (get_ns o)
+  | None => String.eqb (get_ns d) (get_ns o)
+  end.
+
+Definition realises_d (c : dcfg) (o d : json) : bool :=
+  desired_key_matches c o d &&
+  (String.eqb (attachment_method c d) method_on_delete ||
+   match apply_update (obj_map o) (obj_map d) with
+   | Ok n => jeqb (JObj n) o
+   | _ => true
+   end).
+
+Fixpoint last_opt {A} (l : list A) : option A :=
+  match l with [] => None | [a] => Some a | _ :: l' => last_opt l' end.
+
+Fixpoint drop_until_quiet (rs : list round_obs) : option (list round_obs) :=
+  match rs with
+  | [] => None
+  | r :: rs' => if quiet_round r then Some rs' else drop_until_quiet rs'
+  end.
+
+Definition C01d_case (c : dcfg) (rs : list round_obs) (initial final : list json) : option string :=
+  match rs with
+  | [] => None
+  | (k0, _, _) :: _ =>
+      match target_of c k0 with
+      | None => None
+      | Some t =>
+          (* (a) a sync that sends no write is reached within the bound *)
+          match drop_until_quiet rs with
+          | None => Some "no-quiescence"
+          | Some further =>
+              (* (d) the further sync sends nothing either *)
+              if negb (forallb quiet_round further) then Some "hot-loop" else
+              (* (c) what is not ours is byte for byte what it was *)
+              match first_some (fun o =>
+                      if same_object o t || ours_d c t o then None else
+                      match find (same_object o) final with
+                      | Some o' => if jeqb o o' && jeqb o' o then None else Some "foreign-object-touched"
+                      | None => Some "foreign-object-touched"
+                      end) initial with
+              | Some w => Some w
+              | None =>
+                  (* (b) ours in the final store = the desired attachments of the last answer *)
+                  match last_opt rs with
+                  | Some (_, evs, _) =>
+                      match round_desired_d c evs with
+                      | Some (sent, r, ds) =>
+                          let desired := flat_map (fun d => match d with Some o => [o] | None => [] end) ds in
+                          let mine := filter (fun o => ours_d c t o && negb (same_object o t)) final in
+                          if negb (forallb (fun d => existsb (fun o => realises_d c o d) mine) desired) ||
+                             negb (forallb (fun o => is_deleting o || existsb (fun d => desired_key_matches c o d) desired) mine)
+                          then Some "final-attachments-differ" else None
+                      | None => None
+                      end
+                  | None => None
+                  end
+              end
+          end
+      end
+  end.
